@@ -42,6 +42,9 @@ pub enum Fault {
     PendingWrite { n: usize },
     /// n-th flush fails
     ErrAtFlush { n: usize },
+    /// n-th read returns only `t` bytes and the read after it fails once with ErrorKind::Interrupted
+    /// (a transient condition: whoever retries must not have lost its place)
+    InterruptedRead { n: usize, t: usize },
 }
 
 #[derive(Debug, Default)]
@@ -100,6 +103,12 @@ impl AsyncRead for MemDev {
             }
             _ => {}
         }
+        if let Fault::InterruptedRead { n: k, .. } = me.fault {
+            if n == k + 1 && !st.pending_done {
+                st.pending_done = true;
+                return Poll::Ready(Err(io::Error::new(io::ErrorKind::Interrupted, "injected EINTR")));
+            }
+        }
         st.reads += 1;
         st.pending_done = false;
         if let Fault::ErrAtRead { n: k } = me.fault {
@@ -110,7 +119,7 @@ impl AsyncRead for MemDev {
         let len = st.bytes.len() as u64;
         let start = me.pos.min(len) as usize;
         let mut want = buf.remaining().min(st.bytes.len() - start);
-        if let Fault::ShortRead { n: k, t } = me.fault {
+        if let Fault::ShortRead { n: k, t } | Fault::InterruptedRead { n: k, t } = me.fault {
             if k == n {
                 want = want.min(t.max(1));
             }
